@@ -1484,7 +1484,9 @@ class AsType(Elemwise):
             dtypes = self.operand("dtypes")
             columns = determine_column_projection(self, parent, dependents)
             if isinstance(dtypes, dict):
-                dtypes = {key: val for key, val in dtypes.items() if key in columns}
+                # columns is a single label when a Series is selected
+                selected = _convert_to_list(columns)
+                dtypes = {key: val for key, val in dtypes.items() if key in selected}
                 if not dtypes:
                     return type(parent)(self.frame, *parent.operands[1:])
             if isinstance(columns, list):
